@@ -210,10 +210,10 @@ for _f in ('xml', 'soap11', 'soap12'):
     _mk_xml(_f)
 
 
-def _mk_dict(family):
+def _mk_dict(family, oid=None):
     P = {'json': JsonDocument, 'yaml': YamlDocument, 'msgpack': MessagePackDocument}[family]
 
-    @obligation('C16.roundtrip.%s' % family, targets=['spyne.protocol.dictdoc.hier:HierDictDocument._to_dict_value',
+    @obligation(oid or 'C16.roundtrip.%s' % family, targets=['spyne.protocol.dictdoc.hier:HierDictDocument._to_dict_value',
                                                        'spyne.protocol.dictdoc.hier:HierDictDocument._complex_to_dict',
                                                        'spyne.protocol.dictdoc.hier:HierDictDocument._doc_to_object',
                                                        'spyne.model.complex:ComplexModelBase.get_subclasses'],
